@@ -51,6 +51,18 @@ PROPS = {
         "level_note": "trusted: LeapRule.tla, TLC, harness logging; years 238-240 are excluded by the property itself",
         "technique": "TLA+ leap-rule model checked with TLC + trace validation per solstice-to-solstice span",
     },
+    "C05": {
+        "title": "solar terms and new moons sit at the true Sun/Moon longitudes (integer-projected clauses)",
+        "mc": {"quick": [{"module": "MC_MidnightGuard", "cfg": "MC_MidnightGuard.cfg", "workers": 2}, {"module": "MC_MidnightGuard", "cfg": "MC_MidnightGuardMoon.cfg", "workers": 2}]},
+        "rule": "all 24 terms and all lunations of sampled years (quick: every 5th year of 1900..2150, regime edges, 90 seeded years; thorough: every year 1..9999); the inverse solvers on a raw grid of target longitudes over +-10,000 years; TT-UT at every integer year -4000..10000; the closed-form low-precision instants of 1645..1959. "
+                "Non-trivial: events within 30 min of midnight (the day depends on the fall-back), events inside the independent-theory window 1900..2150, TT-UT segment joins",
+        "exhaustive": {"quick": False, "thorough": True},
+        "assumptions": ["the distances to an independent theory are measured by ~80 lines of Rust in the harness (Meeus ch. 25 and ch. 49, Espenak-Meeus TT-UT polynomials): a trusted measuring instrument; the specification only bounds them",
+                        "a change that moves an instant by less than the instrument's accuracy (about 15 min for terms, 1.5 min for new moons) and across no midnight is not detected"],
+        "level_text": "TLC checks the day-level routine as a fast-solver / guard-band / precise-solver machine (MC_MidnightGuard: the reported day is the day of the precise instant whenever the fast solver's error is below the guard) and validates integer projections of the real code: calendar day = civil day of the precise instant for all terms from 1961 and all lunations 1961..8000, fast-solver error inside the guard band, inverse-solver residual below one arcsecond, TT-UT jumps below 5 s at every integer year, low-precision closed forms within their accuracy, and distance to an independent low-precision theory within that theory's accuracy",
+        "level_note": "PARTLY applicable: the true-longitude clause rests on a Rust measuring routine with the spec as bound (weakest binding of this suite); the numeric series themselves cannot be modelled in TLA+ (no reals); everything else in this check is decided by TLC on logged integers",
+        "technique": "TLA+ guard-band model checked with TLC + trace validation of integer-projected astronomical observations",
+    },
     "C06": {
         "title": "every day belongs to exactly one solar term: ordered, evenly spaced, consistent",
         "mc": {"quick": [{"module": "MC_TermClock", "cfg": "MC_TermClock.cfg", "workers": 4}]},
